@@ -95,6 +95,13 @@ func waitListening(addr string) error {
 
 func openFront(w *world, kind string) (*front, error) {
 	f := &front{kind: kind, w: w, ret: make(chan error, 1)}
+	maxTLS := uint16(0)
+	if kind == "tls12" {
+		// up to TLS 1.2 a Read hands out the last application data together with io.EOF when the
+		// peer's close_notify has been received already
+		kind, maxTLS = "tls", tls.VersionTLS12
+		f.kind = "tls"
+	}
 	var err error
 	if f.addr, err = freeAddr(); err != nil {
 		return nil, err
@@ -109,7 +116,7 @@ func openFront(w *world, kind string) (*front, error) {
 		}
 		f.tlsCfg = &tls.Config{InsecureSkipVerify: true}
 		go func() {
-			f.ret <- w.svr.ListenAndServeTLS("tcp://"+f.addr, &tls.Config{Certificates: []tls.Certificate{cert}})
+			f.ret <- w.svr.ListenAndServeTLS("tcp://"+f.addr, &tls.Config{Certificates: []tls.Certificate{cert}, MaxVersion: maxTLS})
 		}()
 	default:
 		return nil, errors.New("unknown front " + kind)
@@ -250,7 +257,7 @@ func TestFronts(t *testing.T) {
 	if raceEnabled {
 		n = pick(6, 45)
 	}
-	kinds := []string{"tls", "ws", "tcp"}
+	kinds := []string{"tls12", "ws", "tcp", "tls", "ws", "tcp"}
 	for g := 0; g < n; g++ {
 		id := fmt.Sprintf("front/%d", g)
 		if !mine(g) || !out.Only(id) {
@@ -258,8 +265,8 @@ func TestFronts(t *testing.T) {
 		}
 		seed := caseSeed("front", g)
 		r := spec.NewRand(seed)
-		kind := kinds[g%3]
-		cfg := stressCfg{Seed: seed, Front: kind, Publishers: 2 + r.Intn(5), Subscribers: 4 + r.Intn(3), Msgs: pick(120, 300), Retained: g%2 == 0, Churn: (g/3)%2 == 0,
+		kind := kinds[g%6]
+		cfg := stressCfg{Seed: seed, Front: kind, LastWords: true, Publishers: 2 + r.Intn(5), Subscribers: 4 + r.Intn(3), Msgs: pick(120, 300), Retained: g%2 == 0, Churn: (g/3)%2 == 0,
 			InProc: (g / 3) % 3, GOMAXPROCS: []int{4, 16, 2}[(g/3)%3], BufferSize: []int64{16384, 65536}[(g/6)%2]}
 		if raceEnabled {
 			cfg.Msgs = pick(50, 120)
@@ -268,8 +275,8 @@ func TestFronts(t *testing.T) {
 		out.Begin(id, seed, params)
 		res := runStress(cfg)
 		reportStress("front", cfg, res, params)
-		out.Count("front."+kind+".runs", 1)
-		out.Count("front."+kind+".received", res.Received)
+		out.Count("front."+strings.TrimSuffix(kind, "12")+".runs", 1)
+		out.Count("front."+strings.TrimSuffix(kind, "12")+".received", res.Received)
 		out.Class(fmt.Sprintf("front/%s/ret%v/churn%v/in%d/mp%d/buf%d", kind, cfg.Retained, cfg.Churn, cfg.InProc, cfg.GOMAXPROCS, cfg.BufferSize))
 		if g < 3 {
 			out.Sample("front", 3, map[string]interface{}{"params": params, "published": res.Published, "received_by_subscribers": res.Received, "exactly_once_streams": res.Complete})
